@@ -44,6 +44,8 @@ typedef struct {
     int timeout_ms;     /* per case */
     bool always_fork_each; /* one child per case */
     bool inproc;        /* no fork at all (pure functions) */
+    bool confirm_hang;  /* a case that hits its alarm is re-run alone with 10x the limit before it counts as a hang (commands
+                           whose callers do not do that themselves) */
 } run_opts;
 /* runs cases [0,n): emits for every case the lines fn printed followed by one status line
  *   "X <idx> exit=<n> sig=<n> timeout=<0|1> san=<hex|->" */
